@@ -627,6 +627,10 @@ def gen(tier, rng, models=("ordered", "unordered"), count=None):
         costs = rng.choice(COSTS) if rng.random() < 0.6 else [rng.randrange(0, 3), rng.randrange(0, 4), rng.choice([0, 1, 2, "inf"]), rng.randrange(0, 3), rng.randrange(0, 3)]
         algos = ["base_spfs", "ext_spfs"] if model == "ordered" else ["base_uspfs", "superdtl"]
         r = {"obj": osh, "sp": ssh, "leafmap": [rng.choice(sleaves) for _ in range(on)], "leaf_syn": leaf_syn, "costs": costs, "algo": algos[(i // len(models)) % 2]}
+        if rng.random() < 0.3:
+            order = list(range(on))
+            rng.shuffle(order)
+            r["dict_order"] = order
         if model == "ordered" and rng.random() < 0.25:
             # prescribed root order: a common supersequence of the leaves when the leaves are consistent
             orders = root_orders(leaf_syn, None)
